@@ -241,3 +241,21 @@ PROPS["C15"] = {
         {"test": "^TestTransportWideNumbersGapFree$", "checks": 25, "shards": 8, "race": True, "timeout": 1200},
     ],
 }
+
+PROPS["C19"] = {
+    "pkg": "c19",
+    "technique": "stateful property-based testing: a recount model is updated in lock-step with generated traffic and compared with Get(ssrc) after every step",
+    "level_text": "Generated interleavings of incoming/outgoing RTP and RTCP compounds over up to 3+3 SSRCs through one stats interceptor (model clock via SetNowFunc) "
+                  "are recounted by an independent model; after every step all listed figures of every bound SSRC are compared (counters exactly, RTTs within 2 us). Exploration.",
+    "level_note": "trusts: the recount model; fields the statement does not list (local inbound jitter, remote outbound counts from sender reports) are not asserted; "
+                  "recorders are awaited to be active before traffic starts; report timestamps written by the harness have distinct middle-32 values",
+    "assumptions": ["an SSRC is bound in one direction only", "sequence unwrapping is the library's (C20)"],
+    "quick": [
+        {"test": "^TestRegress", "timeout": 120},
+        {"test": "^TestStatsEqualRecount$", "checks": 4000, "steps": 60, "timeout": 300},
+    ],
+    "thorough": [
+        {"test": "^TestRegress", "timeout": 120},
+        {"test": "^TestStatsEqualRecount$", "checks": 15000, "steps": 100, "shards": 14, "timeout": 1200},
+    ],
+}
